@@ -1165,7 +1165,7 @@ class Key(object):
                 #         _logger.warning("Current network %s is different from the one found in key: %s" %
                 #                         (network, found_networks[0]))
                 #         self.network = Network(found_networks[0])
-                if key[-1:] == b'\x01':
+                if len(key) > 33 and key[-1:] == b'\x01':
                     self.compressed = True
                     key = key[:-1]
                 else:
